@@ -697,8 +697,10 @@ H("C01", "lexer::verif_h::c01_separator_set", LEX, covers=2, functions=["lexer::
   what="separator / register-digit / identifier character classes for every char", bounds="complete")
 H("C01", "lexer::verif_h::c01_separator_before_register", LEX, tier="thorough", covers=1, stubs=[FMT, KW], timeout=4000, mem_gb=24,
   functions=["Cursor::advance_real", "Cursor::advance_token"], what="<separator><r|R><0-7>: every separator, both cases, every register -> the same register token", bounds="3 bytes")
-for nm, what in [("c01_unescape_plain", "no escape"), ("c01_unescape_newline", "\\\\n -> LF"), ("c01_unescape_backslash_n", "escaped backslash followed by n -> backslash, n"),
-                 ("c01_unescape_nonascii_escape", "2-byte character before an escape: no slicing inside the character"), ("c01_unescape_quote_tab", "\\\\\\" and \\\\t")]:
+for nm, what in [("c01_unescape_plain", "no escape"), ("c01_unescape_newline", "backslash-n -> LF"),
+                 ("c01_unescape_backslash_n", "escaped backslash followed by n -> backslash, n"),
+                 ("c01_unescape_nonascii_escape", "2-byte character before an escape: no slicing inside the character"),
+                 ("c01_unescape_quote_tab", "escaped quote and backslash-t")]:
     for pp in (("C01", "C05") if "nonascii" in nm else ("C01",)):
         H(pp, f"parser::verif_h::{nm}", PAR, tier="thorough", covers=1, timeout=3000, mem_gb=24,
           stubs=["core::slice::memchr::memchr (behind str::find) -> plain byte loop with the same contract"], functions=["unescape"],
